@@ -5,7 +5,19 @@ from ..gen import entries as gentries, jsonvals, keys as gkeys, metadata as gmd
 from ..monitors import boundary
 from ..refs import canonjson, models
 
-ROLE_POOL = ["root", "key_mgr", "pkg_mgr", "", "röle", "key_mgr ", "Key_mgr", "pkg_mgr2", "\U0001f600", "role\ud800"]
+ROLE_POOL = ["root", "key_mgr", "pkg_mgr", "", "r\u00f6le", "key_mgr ", "Key_mgr", "pkg_mgr2", "\U0001f600", "role\ud800",
+             "sign\u00e9", "signe\u0301", "\u212bngstr\u00f6m", "\u00c5ngstro\u0308m", "pkg_mgr.json", "\uff52\uff4f\uff4f\uff54", "ro\u200bot"]
+
+
+def role_variants(name):
+    """other spellings a sloppy lookup might treat as the same role (all are DIFFERENT names)"""
+    import unicodedata
+
+    out = {unicodedata.normalize(f, name) for f in ("NFC", "NFD", "NFKC", "NFKD")}
+    out |= {name.upper(), name.lower(), name.casefold(), name.strip(), name + " ", " " + name, name + ".json", name + "\x00",
+            name.replace(".json", ""), name.title(), name + "s", name[:-1]}
+    out.discard(name)
+    return sorted(out)
 STRATA = ["named", "named", "named", "other_role", "untrusted_own", "union", "below", "type_confusion", "unknown_role",
           "named_junk"]
 
@@ -43,6 +55,11 @@ def gen_case(rng, gpg=None, stratum=None):
     role = rng.choice(names)
     if stratum == "unknown_role":
         role = rng.choice([r for r in ROLE_POOL + ["nope", "root.json"] if r not in names])
+        if rng.random() < 0.6:
+            # a spelling that is canonically / case-wise / whitespace-wise "close" to a listed role, but another name
+            cands = [v for n in names for v in role_variants(n) if v not in names]
+            if cands:
+                role = rng.choice(cands)  # signed below with the keys of EVERY listed role, incl. the one it resembles
     # the untrusted document
     kind = rng.choice(["delegating", "delegating", "payload"])
     if stratum == "type_confusion":
